@@ -341,39 +341,83 @@ fn body(scn: &Scn, g: &Guest, slot: &Arc<Mutex<Option<ExecResult>>>) {
     if scn.wait_start {
         expect.push(b"ready".to_vec());
     }
-    for w in &g.writes {
-        if exited || (final_pc > w.trapa_pc && final_pc < g.code_hi + 4) {
-            let mut t = b"stdout:".to_vec();
-            t.extend_from_slice(&w.text);
-            expect.push(t);
+    // emissions in program order: stdout of every executed write call, ioport announcements of every executed
+    // port store (DDR := ff announces 0, DR := marker announces the marker; time stamps are compared as a pattern)
+    for (bi, b) in scn.guest.blocks.iter().enumerate() {
+        let executed = exited || (final_pc >= g.block_end[bi] && final_pc < g.code_hi + 4);
+        match b {
+            Block::Write { text, .. } => {
+                let w = g.writes.iter().find(|w| w.block == bi).unwrap();
+                if exited || (final_pc > w.trapa_pc && final_pc < g.code_hi + 4) {
+                    let mut t = b"stdout:".to_vec();
+                    t.extend_from_slice(text);
+                    expect.push(t);
+                }
+            }
+            Block::Store { addr, val, .. } if executed && (0xfee000..0xfee00b).contains(addr) => {
+                expect.push(format!("ioport:{:x}:0:*", addr - 0xfee000 + 1).into_bytes());
+                let _ = val;
+            }
+            Block::Store { addr, val, .. } if executed && (0xffffd0..0xffffdb).contains(addr) => {
+                expect.push(format!("ioport:{:x}:{:x}:*", addr - 0xffffd0 + 1, val).into_bytes());
+            }
+            _ => {}
         }
     }
-    if scn.exit_after.is_some() {
-        let mut full: Vec<u8> = Vec::new();
-        for e in &expect {
-            match std::str::from_utf8(e) {
-                Ok(t) => full.extend_from_slice(&escape(t)),
-                Err(_) => full.extend_from_slice(e),
-            }
-            full.push(b'\n');
-        }
-        if received != full {
-            if received.len() < full.len() && full[..received.len()] == received[..] {
-                // exactly the known deviation: the stream is a proper prefix of what was emitted
-                *slot.lock().unwrap() = Some(ExecResult {
-                    failure: Some(Failure::keyed(
-                        "c18.net.exit-race",
-                        "C18/exit-race-loses-queued-messages",
-                        format!("{} message(s) were emitted ({} bytes) but only the first {} bytes were transmitted before the process was gone", expect.len(), full.len(), received.len()),
-                    )),
-                    sig: 0,
-                    stats: Stats::new(),
-                });
-                return;
-            }
+    // pattern-aware comparison of one unescaped record with one expected message ("...:*" = any decimal time stamp)
+    let rec_matches = |u: &[u8], e: &[u8]| -> bool {
+        if e.ends_with(b":*") {
+            let fixed = &e[..e.len() - 1];
+            u.len() > fixed.len() && u.starts_with(fixed) && u[fixed.len()..].iter().all(|c| c.is_ascii_digit())
         } else {
+            u == e
+        }
+    };
+    if scn.exit_after.is_some() {
+        // the process may be gone before everything was written: complete records must be right, a cut-off tail
+        // must be the beginning of the next message; anything missing is exactly the known deviation
+        let ends_nl = received.last() == Some(&b'\n');
+        let mut parts: Vec<&[u8]> = received.split(|b| *b == b'\n').collect();
+        let tail: &[u8] = if ends_nl || received.is_empty() { parts.pop(); &[] } else { parts.pop().unwrap_or(&[]) };
+        let mut ok = parts.len() <= expect.len();
+        if ok {
+            for (r, e) in parts.iter().zip(expect.iter()) {
+                ok = ok && unescape(r).map(|u| rec_matches(&u, e)).unwrap_or(false);
+            }
+        }
+        if ok && !tail.is_empty() {
+            ok = match expect.get(parts.len()) {
+                None => false,
+                Some(e) => {
+                    if e.ends_with(b":*") {
+                        let fixed = &e[..e.len() - 1];
+                        (tail.len() <= fixed.len() && fixed.starts_with(tail)) || (tail.starts_with(fixed) && tail[fixed.len()..].iter().all(|c| c.is_ascii_digit()))
+                    } else {
+                        let esc = match std::str::from_utf8(e) {
+                            Ok(t) => escape(t),
+                            Err(_) => e.clone(),
+                        };
+                        esc.len() >= tail.len() && esc[..tail.len()] == tail[..]
+                    }
+                }
+            };
+        }
+        if ok && (parts.len() < expect.len() || !tail.is_empty()) {
+            *slot.lock().unwrap() = Some(ExecResult {
+                failure: Some(Failure::keyed(
+                    "c18.net.exit-race",
+                    "C18/exit-race-loses-queued-messages",
+                    format!("{} message(s) were emitted but only {} complete line(s){} were transmitted before the process was gone", expect.len(), parts.len(), if tail.is_empty() { "" } else { " and the beginning of the next" }),
+                )),
+                sig: 0,
+                stats: Stats::new(),
+            });
+            return;
+        }
+        if ok {
             bump(&mut stats, "probe.exit_race_all_messages_transmitted");
         }
+        // not ok: fall through to the strict comparison below, which names the discrepancy
     }
     if !received.is_empty() && *received.last().unwrap() != b'\n' {
         fail!(Failure::new("c18.net.framing", format!("the transmitted stream does not end with a newline ({} bytes)", received.len())));
@@ -387,11 +431,11 @@ fn body(scn: &Scn, g: &Guest, slot: &Arc<Mutex<Option<ExecResult>>>) {
     }
     for (i, (r, e)) in recs.iter().zip(expect.iter()).enumerate() {
         match unescape(r) {
-            Some(u) if &u == e => {}
+            Some(u) if rec_matches(&u, e) => {}
             Some(u) => fail!(Failure::new("c18.net.framing", format!("line {} unescapes to {:?}, the message emitted was {:?}", i, String::from_utf8_lossy(&u), String::from_utf8_lossy(e)))),
             None => fail!(Failure::new("c18.net.framing", format!("line {} is not a valid escaped record: {:?}", i, String::from_utf8_lossy(r)))),
         }
-        if *r != &escape(std::str::from_utf8(e).unwrap_or(""))[..] && std::str::from_utf8(e).is_ok() {
+        if !e.ends_with(b":*") && *r != &escape(std::str::from_utf8(e).unwrap_or(""))[..] && std::str::from_utf8(e).is_ok() {
             // same text but a different escaping (e.g. an unnecessary escape): still reversible, accepted
             bump(&mut stats, "note.alternative_escaping");
         }
@@ -491,11 +535,21 @@ impl Property for C18N {
         // guest: a few console writes with framing-hostile texts; for Stop scenarios it never exits by itself
         let mut blocks = Vec::new();
         let nb = rng.range(0, 5);
+        // marker port: all bits outputs, every DR store with a new value is announced through the Bus's own sender
+        let port = rng.range(1, 11) as u32;
+        let mut marker = 0u8;
+        if nb > 0 && rng.chance(1, 2) {
+            blocks.push(Block::Store { addr: 0xfee000 + port - 1, val: 0xff, short: false });
+        }
+        let has_ddr = !blocks.is_empty();
         for _ in 0..nb {
-            if rng.chance(2, 3) {
-                blocks.push(Block::Write { text: gen_text(rng), dram: rng.chance(1, 3) });
-            } else {
-                blocks.push(Block::Delay(rng.range(1, 6) as u16));
+            match rng.below(6) {
+                0..=2 => blocks.push(Block::Write { text: gen_text(rng), dram: rng.chance(1, 3) }),
+                3 if has_ddr => {
+                    marker += 1;
+                    blocks.push(Block::Store { addr: 0xffffd0 + port - 1, val: marker, short: rng.chance(1, 2) });
+                }
+                _ => blocks.push(Block::Delay(rng.range(1, 6) as u16)),
             }
         }
         if ending == Ending::Stop {
@@ -506,7 +560,7 @@ impl Property for C18N {
         let n = rng.range(1, if tier == Tier::Quick { 10 } else { 24 }) as usize;
         let mut lines = Vec::new();
         let mut seq = 0u8;
-        let malformed = ["cmd:stop:1", "cmd", "cmd:pause:x", "u8:zz:1", "u8:fffe20", "", "foo:1:2", "ioport:1", "cmd:halt", "u8:fffe20:100", "\u{3042}\u{3042}:\u{e9}"];
+        let malformed = ["cmd:stop:1", "cmd", "cmd:pause:x", "u8:zz:1", "u8:fffe20", "", "foo:1:2", "ioport:1", "cmd:halt", "u8:fffe20:100", "\u{3042}\u{3042}:\u{e9}", "cmd:stop\r", "cmd:pause\r", "u8:fffe20:7f\r", "\r"];
         let mut started = !wait_start;
         for _ in 0..n {
             match rng.below(10) {
@@ -515,7 +569,20 @@ impl Property for C18N {
                     lines.push(format!("u8:{:x}:{:x}", SEQ, seq));
                 }
                 5 => lines.push(format!("u8:{:x}:{:x}", SCRATCH_LO + rng.below(16) as u32, rng.u8())),
-                6 | 7 => lines.push(rng.pick(&malformed).to_string()),
+                6 => lines.push(rng.pick(&malformed).to_string()),
+                7 => {
+                    if rng.chance(1, 3) {
+                        // a long junk line around the reader's buffer size (8192): the next line must still arrive intact
+                        let n = *rng.pick(&[8190usize, 8191, 8192, 8193, 8200, 16384, 3000]);
+                        let mut l = String::from("x:");
+                        while l.len() < n {
+                            l.push(*rng.pick(&['a', 'b', ':', '\\']));
+                        }
+                        lines.push(l);
+                    } else {
+                        lines.push(rng.pick(&malformed).to_string());
+                    }
+                }
                 8 => {
                     lines.push("cmd:start".into());
                     started = true;
